@@ -3,6 +3,14 @@
 /verif/known_findings.json. Never used by a check at run time: maintenance only.
 Usage: tools/kf_merge.py <file.json> [--only C16,C17]"""
 import json, sys
+
+def atomic_dump(obj, path):
+    import os, json as _j
+    tmp = path + ".tmp%d" % os.getpid()
+    with open(tmp, "w") as fh:
+        _j.dump(obj, fh, indent=1)
+    os.replace(tmp, path)
+
 src = json.load(open(sys.argv[1]))
 src = src["findings"] if isinstance(src, dict) else src
 only = None
@@ -21,5 +29,5 @@ for f in src:
     d["findings"].append(f)
     have.add(k)
     n += 1
-json.dump(d, open(path, "w"), indent=1)
+atomic_dump(d, path)
 print("added", n, "total", len(d["findings"]))
